@@ -224,7 +224,8 @@ def run(ctx):
     from . import C11, C10
     C11.check_transform_algebra(ctx, db)
     C10.check_signs(ctx, db)
-    C10.check_affine_algebra(ctx, db)   # the point maps the collectors apply are exactly the documented affine maps   # the element transforms the collectors apply: width/offset sign and scale policy of the two path kinds
+    C10.check_affine_algebra(ctx, db)   # the point maps the collectors apply are exactly the documented affine maps
+    C10.check_element_maps(ctx, db)     # element transforms of polygons and paths (points, widths, offsets, lengths) by generic-element execution
 
 
 MANIFEST = dict(
